@@ -8,7 +8,7 @@ from .. import env, core, par
 PID = "C18"
 LEVEL = "exploration"
 RULE = ("Hypothesis-generated sequences of 1..30 operations on one Module or one Bundle: setattr(name, value), add(value), "
-        "add(value, name=), re-adding an attribute under its own name, assigning an already-held object under a second name, get(name), attribute read, and negative operations (reserved "
+        "add(value, name=), re-adding an attribute under its own name, assigning an already-held object under a second name, assigning a held object to another module too and handing it back by re-adding it, get(name), attribute read, and negative operations (reserved "
         "names, non-HDL values, delattr, sub-classing, add with both / neither name, additions after elaboration), names drawn from "
         "{a,b,c,d,e}, values of every attribute kind (signal, signal with a direction but no port visibility, each port direction, "
         "instance, array, instance bundle - of port-less cells - and bundle instance; for Bundles: signal, bundle instance). After "
@@ -81,7 +81,7 @@ def views(obj, is_module):
     return {"signals": obj.signals, "bundles": obj.bundles}
 
 
-def invariant(h, obj, modelmap, is_module, step, out):
+def invariant(h, obj, modelmap, is_module, step, out, lent=()):
     vo = VIEW_OF if is_module else BVIEW_OF
     ns = obj.namespace
     if set(ns) != set(modelmap) or any(ns[k] is not v[1] for k, v in modelmap.items()):
@@ -107,7 +107,7 @@ def invariant(h, obj, modelmap, is_module, step, out):
         except Exception as e:
             out.append(("getattr_raises", "after step %d: attribute %r raised %r" % (step, k, e)))
         if is_module:
-            if getattr(o, "_parent_module", None) is not obj:
+            if k not in lent and getattr(o, "_parent_module", None) is not obj:
                 out.append(("parent_not_set", "after step %d: %r does not report the module as its parent" % (step, k)))
             if isinstance(o, h.Signal):
                 from hdl21.signal import Visibility
@@ -122,6 +122,8 @@ def run_case(case):
     is_module = case["target"] == "module"
     obj = h.Module(name="Edit") if is_module else h.Bundle(name="EditB")
     modelmap = {}
+    other = h.Module(name="Other") if is_module else None
+    lent = set()
     out, notes = [], []
     reused_other_kind = False
     for step, op in enumerate(case["ops"]):
@@ -154,10 +156,20 @@ def run_case(case):
                     setattr(obj, dst, modelmap[src][1])  # the same object under a second name (it now reports the name dst)
                     modelmap[dst] = modelmap[src]
                     notes.append("aliased")
+            elif t == "lend":
+                # the object is also assigned to ANOTHER module (which now claims it) - and may be handed back by a later readd
+                name = op[1]
+                if name in modelmap and is_module:
+                    setattr(other, name, modelmap[name][1])
+                    lent.add(id(modelmap[name][1]))
+                    notes.append("lent_to_another_module")
             elif t == "readd":
                 name = op[1]
                 if name in modelmap:
                     setattr(obj, name, modelmap[name][1])
+                    if id(modelmap[name][1]) in lent:
+                        lent.discard(id(modelmap[name][1]))
+                        notes.append("handed_back")
             elif t == "get":
                 pass
             elif t == "neg":
@@ -191,10 +203,13 @@ def run_case(case):
             out.append(("valid_op_raises:%s:%s" % (t, type(e).__name__), "step %d %s raised %s: %s" % (step, op, type(e).__name__, str(e)[-200:])))
             return out, notes, reused_other_kind
         n0 = len(out)
-        invariant(h, obj, modelmap, is_module, step, out)
+        invariant(h, obj, modelmap, is_module, step, out, lent={k2 for k2, v2 in modelmap.items() if id(v2[1]) in lent})
         if len(out) > n0:
             return out, notes, reused_other_kind
     # final export and class-style equivalence
+    if any(id(v2[1]) in lent for v2 in modelmap.values()):
+        notes.append("final_phase_skipped_object_lent")
+        return out, notes, reused_other_kind
     if len({id(o) for _k, o in modelmap.values()}) != len(modelmap) or any(o.name != k for k, (_kd, o) in modelmap.items()):
         # an object is still held under two names, or under a name other than the one it reports (it was renamed by a second
         # assignment): what such a module exports as is not stated anywhere
@@ -334,7 +349,7 @@ def shard(idx, n, tier):
             if target == "module" else ["signals", "bundles", "namespace"]
         pos = st.one_of(st.tuples(st.just("setattr"), name, kind), st.tuples(st.just("setattr"), name, kind),
                         st.tuples(st.just("add"), name, kind), st.tuples(st.just("add_name"), name, kind),
-                        st.tuples(st.just("readd"), name), st.tuples(st.just("get"), name), st.tuples(st.just("alias"), name, name))
+                        st.tuples(st.just("readd"), name), st.tuples(st.just("get"), name), st.tuples(st.just("alias"), name, name), st.tuples(st.just("lend"), name))
         neg = st.one_of(st.tuples(st.just("neg"), st.just("reserved"), st.sampled_from(banned)),
                         st.tuples(st.just("neg"), st.just("nonhdl"), st.sampled_from(["int", "str", "module", "list", "none", "extmod", "call"])),
                         st.tuples(st.just("neg"), st.just("nonhdl_add")),
